@@ -80,6 +80,8 @@ macro_rules! va { ($($V:ident)+) => { $( impl VA for $V<S> {
             ("from_iter", a.iter().cloned().collect::<$V<S>>().ent(), a.to_vec()),
             ("from_iter (longer)", long.iter().cloned().collect::<$V<S>>().ent(), a.to_vec()),
             ("from_iter (shorter)", short.iter().cloned().collect::<$V<S>>().ent(), short_want),
+            // an iterator ends at its first `None`, also when it is not fused and would yield again afterwards
+            ("from_iter (stops at the first None of a non-fused iterator)", { let mut k = 0usize; std::iter::from_fn(|| { k += 1; if k == 2 { None } else { Some(a[(k - 1) % n]) } }).collect::<$V<S>>().ent() }, { let mut w = vec![dflt; n]; w[0] = a[0]; w }),
             ("into_iter", v.into_iter().collect::<Vec<S>>(), a.to_vec()),
             ("into_iter().rev()", v.into_iter().rev().collect::<Vec<S>>(), a.iter().rev().cloned().collect()),
             ("iter()", v.iter().cloned().collect::<Vec<S>>(), a.to_vec()),
